@@ -70,6 +70,7 @@ pub fn e1_stats(scn: &E1Scn, d: &Digest, out: &RunOut, stats: &mut Stats) {
     if d.resolved.values().any(|v| v.len() >= 2) {
         stats.hit("probe:two-waiters-on-one-ticket");
     }
+    stats.add("probe:ticket-cloned-after-first-poll", out.hist.iter().filter(|r| matches!(r.ev, Ev::Note { what: "late-clone", .. })).count() as u64);
     stats.add("fault:waiter-cancelled", out.hist.iter().filter(|r| matches!(r.ev, Ev::Note { what: "waiter-cancelled", .. })).count() as u64);
     if scn.senders.len() >= 2 {
         stats.hit("probe:concurrent-senders");
@@ -199,6 +200,11 @@ fn shrink_e1_raw(s: &E1Scn) -> Vec<E1Scn> {
             if st.cancel_after.is_some() {
                 let mut c = s.clone();
                 c.senders[si][i].cancel_after = None;
+                out.push(c);
+            }
+            if st.late_clone.is_some() {
+                let mut c = s.clone();
+                c.senders[si][i].late_clone = None;
                 out.push(c);
             }
             if st.inline {
@@ -485,7 +491,7 @@ pub fn gen_settled(rng: &mut Rng, graceful_heavy: bool) -> E1Scn {
             16 => Op::UnsetHook,
             _ => Op::Delete,
         };
-        steps.push(Step { gap: 2000 + rng.below(3) * 1000, op, waiters: rng.below(3) as u8, inline: false, cancel_after: None });
+        steps.push(Step { gap: 2000 + rng.below(3) * 1000, op, waiters: rng.below(3) as u8, inline: false, cancel_after: None, late_clone: None });
     }
     let n_children = rng.range(1, 4);
     let children = (0..n_children).map(|_| e1::child_class(rng.below(6), rng)).collect();
@@ -495,7 +501,7 @@ pub fn gen_settled(rng: &mut Rng, graceful_heavy: bool) -> E1Scn {
 /// graceful op immediately followed (same instant or a few ms later) by controls of every priority
 pub fn gen_graceful_burst(rng: &mut Rng, faults: bool) -> E1Scn {
     let mut sigs = e1::SigAlloc::new();
-    let mut steps = vec![Step { gap: 0, op: Op::Start, waiters: 1, inline: rng.chance(1, 2), cancel_after: None }];
+    let mut steps = vec![Step { gap: 0, op: Op::Start, waiters: 1, inline: rng.chance(1, 2), cancel_after: None, late_clone: None }];
     let grace = *rng.pick(&e1::DURS[..7]);
     let sig = if rng.chance(1, 10) { 77 } else { sigs.fresh() };
     let g = match rng.below(3) {
@@ -507,7 +513,7 @@ pub fn gen_graceful_burst(rng: &mut Rng, faults: bool) -> E1Scn {
         // 77 is not a valid signal number: must be delivered as SIGTERM (15); keep 15 out of the pool
         let _ = sigs.fresh();
     }
-    steps.push(Step { gap: *rng.pick(&[0u64, 0, 1, 5, 50]), op: g, waiters: rng.range(0, 3) as u8, inline: false, cancel_after: None });
+    steps.push(Step { gap: *rng.pick(&[0u64, 0, 1, 5, 50]), op: g, waiters: rng.range(0, 3) as u8, inline: false, cancel_after: None, late_clone: None });
     let n_after = rng.range(0, 5);
     let mut second: Vec<Step> = Vec::new();
     for _ in 0..n_after {
@@ -520,7 +526,7 @@ pub fn gen_graceful_burst(rng: &mut Rng, faults: bool) -> E1Scn {
             7 => Op::Start,
             _ => Op::Stop,
         };
-        let st = Step { gap: *rng.pick(&[0u64, 0, 1, 2, 5, 10, 50, 100]), op, waiters: rng.below(2) as u8, inline: false, cancel_after: None };
+        let st = Step { gap: *rng.pick(&[0u64, 0, 1, 2, 5, 10, 50, 100]), op, waiters: rng.below(2) as u8, inline: false, cancel_after: None, late_clone: None };
         if rng.chance(1, 3) {
             second.push(st);
         } else {
@@ -965,7 +971,7 @@ pub fn gen_c07(rng: &mut Rng, idx: u64) -> E1Scn {
                     st.op = Op::Run;
                 }
             }
-            s.senders[0].insert(0, Step { gap: 0, op: Op::SetErr { async_ms: if rng.chance(1, 2) { None } else { Some(5) } }, waiters: 0, inline: false, cancel_after: None });
+            s.senders[0].insert(0, Step { gap: 0, op: Op::SetErr { async_ms: if rng.chance(1, 2) { None } else { Some(5) } }, waiters: 0, inline: false, cancel_after: None, late_clone: None });
             s.family = "errh-first".into();
             s
         }
@@ -1001,6 +1007,9 @@ impl Check for C07 {
                 }
                 if st.waiters >= 2 && st.cancel_after.is_none() && rng.chance(1, 5) {
                     st.cancel_after = Some(*rng.pick(&[0u64, 1, 5, 50]));
+                }
+                if st.waiters >= 1 && st.late_clone.is_none() && rng.chance(1, 5) {
+                    st.late_clone = Some((*rng.pick(&[0u64, 1, 5, 50]), rng.chance(1, 2)));
                 }
             }
         }
@@ -1184,12 +1193,12 @@ pub fn gen_hi_over_normal(rng: &mut Rng) -> E1Scn {
     // first child exits by itself -> job idle in Finished; then an atomic burst [start, to_wait]
     let d1 = *rng.pick(&[0u64, 1, 5, 50]);
     let second = if rng.chance(1, 2) { ChildSpec { self_exit: Some(*rng.pick(&[1u64, 5, 50, 100])), ..Default::default() } } else { ChildSpec::default() };
-    let mut steps = vec![Step { gap: 0, op: Op::Start, waiters: 0, inline: false, cancel_after: None }];
-    let mut burst = vec![Step { gap: 2000, op: Op::Start, waiters: 0, inline: false, cancel_after: None }];
+    let mut steps = vec![Step { gap: 0, op: Op::Start, waiters: 0, inline: false, cancel_after: None, late_clone: None }];
+    let mut burst = vec![Step { gap: 2000, op: Op::Start, waiters: 0, inline: false, cancel_after: None, late_clone: None }];
     for _ in 0..rng.below(3) {
-        burst.push(Step { gap: 0, op: Op::Run, waiters: 0, inline: false, cancel_after: None });
+        burst.push(Step { gap: 0, op: Op::Run, waiters: 0, inline: false, cancel_after: None, late_clone: None });
     }
-    burst.push(Step { gap: 0, op: Op::ToWait, waiters: rng.range(1, 2) as u8, inline: false, cancel_after: None });
+    burst.push(Step { gap: 0, op: Op::ToWait, waiters: rng.range(1, 2) as u8, inline: false, cancel_after: None, late_clone: None });
     steps.extend(burst);
     E1Scn {
         family: "hi-over-normal".into(),
@@ -1208,7 +1217,7 @@ pub fn gen_order(rng: &mut Rng) -> E1Scn {
     let n_senders = rng.range(1, 3) as usize;
     let mut senders: Vec<Vec<Step>> = vec![Vec::new(); n_senders];
     if rng.chance(2, 3) {
-        senders[0].push(Step { gap: 0, op: Op::Start, waiters: 0, inline: rng.chance(1, 2), cancel_after: None });
+        senders[0].push(Step { gap: 0, op: Op::Start, waiters: 0, inline: rng.chance(1, 2), cancel_after: None, late_clone: None });
     }
     let n = rng.range(2, 14);
     let trickle = rng.chance(1, 2);
@@ -1228,7 +1237,7 @@ pub fn gen_order(rng: &mut Rng) -> E1Scn {
             _ => Op::Delete,
         };
         let gap = if trickle { *rng.pick(&[0u64, 0, 1, 2, 5, 10]) } else { 0 };
-        senders[s].push(Step { gap, op, waiters: rng.below(2) as u8, inline: rng.chance(1, 6), cancel_after: None });
+        senders[s].push(Step { gap, op, waiters: rng.below(2) as u8, inline: rng.chance(1, 6), cancel_after: None, late_clone: None });
     }
     let children = (0..rng.range(1, 3)).map(|_| e1::child_class(rng.below(6), rng)).collect();
     E1Scn { family: "order".into(), grouped: false, session: false, children, spawn_fail: vec![], senders, drop_handles: false }
